@@ -144,6 +144,25 @@ func unhx(s string) []byte {
 	return b
 }
 
+// argBuf: the caller's buffer for one argument position, REUSED IN PLACE from call to call (a caller that keeps one
+// nonce / key / identity buffer and refills it): the library may not remember an argument by reference.  The slice
+// has exact capacity, like exact().
+var argSlots = map[string][]byte{}
+
+func argBuf(slot string, x []byte) []byte {
+	if x == nil {
+		return nil
+	}
+	b := argSlots[slot]
+	if cap(b) < len(x) {
+		b = make([]byte, len(x), len(x)+64)
+		argSlots[slot] = b
+	}
+	b = b[:len(x):len(x)]
+	copy(b, x)
+	return b
+}
+
 // run a decoder on an exact-capacity copy
 func runDec(d decoder, b []byte) callRes {
 	in := exact(b)
@@ -161,6 +180,23 @@ func runDecSpare(d decoder, b []byte, fill byte) callRes {
 	}
 	in := buf[:len(b)]
 	return guard(func() (string, error) { return d.f(in) })
+}
+
+// one message object that lives through the whole run (an application that keeps a message value and refills it):
+// before each use its header fields and its payload list are assigned from the case at hand; whatever earlier Encode
+// / Decode calls left in the object (NextPayload, PayloadBytes) stays.  Encode has to be a function of the fields
+// and payloads only.
+var reusedMsg *message.IKEMessage
+
+func encodeReused(m *message.IKEMessage) callRes {
+	if reusedMsg == nil {
+		reusedMsg = &message.IKEMessage{IKEHeader: &message.IKEHeader{}}
+	}
+	h := reusedMsg.IKEHeader
+	h.InitiatorSPI, h.ResponderSPI, h.MajorVersion, h.MinorVersion = m.InitiatorSPI, m.ResponderSPI, m.MajorVersion, m.MinorVersion
+	h.ExchangeType, h.Flags, h.MessageID = m.ExchangeType, m.Flags, m.MessageID
+	reusedMsg.Payloads = m.Payloads
+	return encodeMsgRes(reusedMsg)
 }
 
 func encodeMsgRes(m *message.IKEMessage) callRes {
